@@ -3,6 +3,7 @@ package c08
 import (
 	"encoding/json"
 	"fmt"
+	plrt "github.com/GuanceCloud/platypus/pkg/engine/runtime"
 	"os"
 	"path/filepath"
 	"strings"
@@ -26,6 +27,7 @@ func TestMain(m *testing.M) {
 	evid.Init(prop, "exploration",
 		"valid base programs (generated control flow, collections, slices, probe and builtin calls) x every expression position in them (conditions, each for clause, for-in iterable, list elements, map keys and values, each index, every slice bound and step, positional and named call arguments, both sides of every assignment kind, both operands of binary/in expressions, unary operand, parenthesised, statement level) x offender kinds: call of an unregistered function; for each builtin each way its documented argument rules can be broken (too few / too many arguments, wrong literal kind in a literal-only position, unknown cast type, unknown grok pattern, ...); break / continue at every statement position outside loops (top level, inside branches, after a loop ended); for v2 additionally random function tables (functions with random parameter lists checked by CheckPassParam) and binding violations. Oracle: the base program is accepted by ParseScript and by ParseV2; every mutated program is rejected by both, by a positioned error whose first position lies inside the offender's span, and the loader returns rather than panics. Non-trivial: offender at nesting depth >= 2 or in a slot other than a statement-level call; distinct by (slot path, offender kind).",
 		"offenders that are only dynamically wrong are not offenders: every offender here violates a load-time rule stated in fn.md / the checkers' documented argument rules")
+	impl.DisturbEvery = 3 // every third parse/load is preceded by a parse of an unrelated malformed text
 	code := m.Run()
 	evid.Flush(code == 0)
 	os.Exit(code)
@@ -357,6 +359,26 @@ func TestRandomFunctionTables(t *testing.T) {
 		}
 		for _, f := range tab {
 			base = append(base, validCall(f))
+			// the same call with its trailing required parameters passed by name, in reverse order, and one optional named
+			if f.nreq > 0 && !f.params[len(f.params)-1].Variable {
+				c := gen.NCall(f.name)
+				k := rapid.IntRange(0, f.nreq).Draw(t, "npositional")
+				for j := 0; j < k; j++ {
+					c.Args = append(c.Args, i64(int64(j)))
+				}
+				for j := f.nreq - 1; j >= k; j-- {
+					c.Args = append(c.Args, gen.NAssign("=", []*gen.Node{id(f.params[j].Name)}, []*gen.Node{i64(int64(j))}))
+				}
+				if k < f.nreq {
+					for _, p := range f.params {
+						if p.Val != nil && !p.Variable {
+							c.Args = append(c.Args, gen.NAssign("=", []*gen.Node{id(p.Name)}, []*gen.Node{i64(7)}))
+							break
+						}
+					}
+				}
+				base = append(base, c)
+			}
 		}
 		src := gen.Print(gen.CloneProg(base), gen.Minimal{})
 		if err, crash := loadV2(src, fns); err != nil || crash != nil {
@@ -368,7 +390,33 @@ func TestRandomFunctionTables(t *testing.T) {
 			hasVar := len(f.params) > 0 && f.params[len(f.params)-1].Variable
 			var off *gen.Node
 			kind := ""
-			switch rapid.IntRange(0, 5).Draw(t, "violation") {
+			switch rapid.IntRange(0, 7).Draw(t, "violation") {
+			case 6:
+				// the last required parameter is missing although an optional one is given by name
+				oi := -1
+				for j, p := range f.params {
+					if p.Val != nil && !p.Variable {
+						oi = j
+						break
+					}
+				}
+				if f.nreq == 0 || oi < 0 {
+					continue
+				}
+				off, kind = gen.NCall(f.name), "missing-required-but-optional-named"
+				for j := 0; j < f.nreq-1; j++ {
+					off.Args = append(off.Args, i64(1))
+				}
+				off.Args = append(off.Args, gen.NAssign("=", []*gen.Node{id(f.params[oi].Name)}, []*gen.Node{i64(5)}))
+			case 7:
+				// every required parameter but the first is given by name
+				if f.nreq < 2 {
+					continue
+				}
+				off, kind = gen.NCall(f.name), "first-required-missing-others-named"
+				for j := 1; j < f.nreq; j++ {
+					off.Args = append(off.Args, gen.NAssign("=", []*gen.Node{id(f.params[j].Name)}, []*gen.Node{i64(int64(j))}))
+				}
 			case 0:
 				off, kind = gen.NCall(f.name+"x", i64(1)), "unregistered-name"
 			case 1:
@@ -412,6 +460,80 @@ func TestRandomFunctionTables(t *testing.T) {
 			checkRejected(t, "tables", rp, "v2[table "+desc+"]", err, crash, span)
 			evid.Case(desc+"|"+s.Path+"|"+kind, true, "table-violation/"+kind)
 		}
+	})
+}
+
+// TestSameTextOtherTable: the verdict on a text depends on the function tables it is loaded with - the same
+// name and text loaded under a table that lacks a function the text calls is rejected, whatever was loaded before.
+func TestSameTextOtherTable(t *testing.T) {
+	less := func(drop string) (map[string]plrt.FuncCall, map[string]plrt.FuncCheck) {
+		c, k := map[string]plrt.FuncCall{}, map[string]plrt.FuncCheck{}
+		for n, f := range call1 {
+			if n != drop {
+				c[n] = f
+			}
+		}
+		for n, f := range check1 {
+			if n != drop {
+				k[n] = f
+			}
+		}
+		return c, k
+	}
+	rk.Check(t, "other-table", 5, evid.Scale(300, 3000), func(t *rapid.T) {
+		base, _ := genBase(t)
+		drop := rapid.SampledFrom([]string{"pval", "probe", "len", "add_key"}).Draw(t, "drop")
+		use := gen.NCall(drop, i64(1))
+		switch drop {
+		case "probe":
+			use = gen.NCall("probe", str("end"), i64(1))
+		case "len":
+			use = gen.NSet("n", gen.NCall("len", str("abc")))
+		case "add_key":
+			use = gen.NCall("add_key", id("k"), i64(1))
+		}
+		base = append(base, use)
+		src := gen.Print(gen.CloneProg(base), gen.Minimal{})
+		at := strings.Index(src, drop+"(")
+		span := [2]int{at, len(src)}
+		lc, lk := less(drop)
+		order := rapid.IntRange(0, 2).Draw(t, "order")
+		full := func(when string) {
+			if _, err, crash := impl.Load1("c08.p", src, call1, check1); err != nil || crash != nil {
+				rk.Fail(t, "other-table", replay{Src: src, Expect: "accepted"}, "valid text rejected under the full tables (%s): %v %v\nscript:\n%s", when, err, crash, src)
+			}
+		}
+		lacking := func(when string) {
+			_, err, crash := impl.Load1("c08.p", src, lc, lk)
+			checkRejected(t, "other-table", replay{Src: src, Offender: drop + " not registered (" + when + ")", Span: span, Expect: "rejected", Table: "builtins without " + drop}, "v1[tables without "+drop+", "+when+"]", err, crash, span)
+		}
+		switch order {
+		case 0:
+			full("first load")
+			lacking("after the same name and text was accepted under the full tables")
+			full("after the rejection")
+		case 1:
+			lacking("first load")
+			full("after the same name and text was rejected under smaller tables")
+			lacking("again")
+		default:
+			full("first load")
+			full("second load")
+			lacking("after two accepting loads")
+		}
+		// v2: the same with a one-function table
+		fn := map[string]*runtimev2.Fn{}
+		for k, v := range sem.V2Fns() {
+			fn[k] = v
+		}
+		src2 := "x = pval(1)\nprobe(\"p\", x)\ny = pval(x)"
+		if err, crash := loadV2(src2, fn); err != nil || crash != nil {
+			rk.Fail(t, "other-table", replay{Src: src2, V2: true, Expect: "accepted"}, "v2 rejected a valid text: %v %v", err, crash)
+		}
+		delete(fn, "pval")
+		err, crash := loadV2(src2, fn)
+		checkRejected(t, "other-table", replay{Src: src2, V2: true, Offender: "pval not registered", Span: [2]int{4, 11}, Expect: "rejected", Table: "probes without pval"}, "v2[table without pval]", err, crash, [2]int{4, 11})
+		evid.Case(fmt.Sprintf("other-table/%s/%d/%d", drop, order, len(src)), true, "same-text-other-table")
 	})
 }
 
